@@ -28,14 +28,14 @@ PROPS = {
         "assumptions": ["hash_single and Ed25519 verification are oracles answered from the implementation's own calls"],
     },
     "C11": {
-        "coq_targets": ["VM/LoopProofs.vo"],
+        "coq_targets": ["VM/LoopProofs.vo", "VM/CostProofs.vo"],
         "streams": [("vm", VM_STEPS | VM_WEIGHT | VM_CALLS | VM_FUEL)],
         "rule": "vm stream: executed step count (Executor::step calls), weight and opcodes_car_weight call count compared exactly with the model; steps <= weight evaluated on every real run",
         "assumptions": ["time/memory: only the instruction count and the weigh-call count are proved; allocator and rope internals are measured, not proved"],
     },
 }
 
-NOT_YET = {'C10': 'check under construction', 'C11': 'check under construction'}
+NOT_YET = {}
 
 MANIFEST_TEXT = {
     "C12": {
